@@ -216,6 +216,11 @@ func ruleSnapshotRollback(c *Ctx) {
 		}
 		muts := os.mutatedSlots(P, fn, 3, map[*ssa.Function]bool{})
 		if len(muts) == 0 {
+			// a function handed a new value (a parameter) that persists and can reject, but installs nothing: the accepted
+			// change is never applied. Functions without parameters beyond the receiver only re-persist what is served.
+			if len(fn.Params) > 1 && fn.Signature.Recv() != nil && fnPkgPath(fn) == modPath+"/server" {
+				c.Viol(rule, "change applied by "+fnName(fn), "a handler that persists a change installs the new value first (a Set… of a served section before Persist)", P.pos(fn.Pos()), "no served section is changed before Persist")
+			}
 			continue
 		}
 		nScope++
@@ -908,11 +913,94 @@ func init() {
 	register("C18", "Dynamic configuration changes are validated, atomic and durable", func(c *Ctx) {
 		c.Group("C18/validated-first", "each setter validates its parameter before it changes the served options", func() { ruleValidatedBeforePublished(c) })
 		c.Group("C18/domain", "domain checks: ratios, registered scheduler types (every entry), isolation level ∈ location labels, non-negative flow digit", func() { ruleDomainAtoms(c) })
-		c.Group("C18/snapshot-rollback", "every function that mutates the served options, persists and returns the error restores each mutated section from a snapshot taken before the first mutation", func() { ruleSnapshotRollback(c); ruleRevertPersistsSnapshot(c) })
+		c.Group("C18/snapshot-rollback", "every function that mutates the served options, persists and returns the error restores each mutated section from a snapshot taken before the first mutation", func() { ruleSnapshotRollback(c); ruleInstalledChangeIsPersisted(c); ruleRevertPersistsSnapshot(c) })
 		c.Group("C18/served-config-not-shared", "configuration objects handed to API code are clones", func() { ruleServedConfigNotShared(c) })
 		c.Group("C18/reload-identity", "the reload-time migration of deprecated flags leaves values written by this version unchanged", func() { ruleReloadMigration(c) })
 		c.Group("C18/memo-after-outcome", "(shared with C17) the storage layer remembers nothing about a config write whose outcome is still open: a cached copy of the stored value is updated only after the write succeeded", func() { ruleStorageMemoAfterOutcome(c) })
 		c.Group("C18/rmw-no-wait", "a section that is read, edited and installed again is not held across a wait", func() { ruleConfigRMWNoWait(c) })
 		c.Group("C18/one-json-value", "one key, one JSON value containing every section; reload installs every section of an existing value", func() { ruleOneConfigValue(c); ruleOmittedOnlyWhenAlwaysZero(c) })
 	})
+}
+
+// ruleInstalledChangeIsPersisted: the converse of snapshot-rollback. A server
+// method that installs a new value in a served section goes on to persist it
+// before it reports success: what is served after an accepted change is what a
+// restarted or newly elected member will load.
+func ruleInstalledChangeIsPersisted(c *Ctx) {
+	P := c.P
+	rule := c.Prop + "/snapshot-rollback"
+	os := computeOptionSlots(P)
+	persist := F(P.Method(cfgPkg, "PersistOptions", "Persist"))
+	n := 0
+	for _, fn := range P.Funcs {
+		if P.isScaffold(fn) || fnPkgPath(fn) != modPath+"/server" || fn.Parent() != nil || fn.Signature.Recv() == nil {
+			continue
+		}
+		if rn := namedOf(fn.Signature.Recv().Type()); rn == nil || rn.Obj().Name() != "Server" {
+			continue
+		}
+		isMut := func(x ssa.Instruction) bool {
+			ci, ok := x.(*ssa.Call)
+			if !ok {
+				return false
+			}
+			g := ci.Call.StaticCallee()
+			return g != nil && len(os.mutators[g]) > 0
+		}
+		has := false
+		for _, b := range fn.Blocks {
+			for _, ins := range b.Instrs {
+				if isMut(ins) {
+					has = true
+				}
+			}
+		}
+		// handlers: given a new value (a parameter), or persisting; a reload from storage installs what is already stored
+		if !has || (len(callsIn(fn, false, persist)) == 0 && len(fn.Params) <= 1) {
+			continue
+		}
+		n++
+		// the value that is persisted is the one handed in: before the first Persist a served section was set from a
+		// parameter of the handler (a handler that only keeps the rollback's Set… persists the old value)
+		if len(fn.Params) > 1 && len(callsIn(fn, false, persist)) > 0 {
+			isParam := func(v ssa.Value) bool {
+				for _, p := range fn.Params[1:] {
+					if v == ssa.Value(p) {
+						return true
+					}
+				}
+				return false
+			}
+			fromParam := func(v ssa.Value) bool {
+				if derivesFrom(v, isParam, 6) {
+					return true
+				}
+				if al, ok := strip(v).(*ssa.Alloc); ok {
+					for _, r := range *al.Referrers() {
+						if st, isSt := r.(*ssa.Store); isSt && st.Addr == ssa.Value(al) && derivesFrom(st.Val, isParam, 6) {
+							return true
+						}
+					}
+				}
+				return false
+			}
+			installed := &calledEv{name: "a served section was set from the handler's argument", match: func(x ssa.Instruction) bool {
+				if !isMut(x) {
+					return false
+				}
+				for _, a := range callArgs(x.(*ssa.Call).Common()) {
+					if fromParam(a) {
+						return true
+					}
+				}
+				return false
+			}}
+			c.need(rule, fn, "call Persist", instrCallMatcher(persist), []Ev{installed}, all, "what is persisted is the change that was asked for: the new value was installed before Persist")
+		}
+		c.mustFollow(rule, fn, "a served section was given a new value", isMut, "Persist", func(x ssa.Instruction) bool { return isCallTo(x, persist) || isMut(x) }, errorExit,
+			"a change installed in a served section is persisted before success is reported (or the section is set again: a rollback)")
+	}
+	if n < 5 {
+		c.Undec(rule, "server methods installing a served section", "at least 5", "", fmt.Sprint(n))
+	}
 }
